@@ -264,7 +264,8 @@ func (cw *c17World) drawOutput(c *c17Case) {
 	case "empty":
 		c.out = ""
 	case "json-not-a-call":
-		c.out = []string{`{"answer": 42}`, `{"name": 7, "arguments": "x"}`, `[1, 2, 3]`, `{"result":{"ok":true},"list":[{"a":1}]}`, `"just a string"`, `null`}[verifsim.Draw("nj", 6)]
+		c.out = []string{`{"answer": 42}`, `{"name": 7, "arguments": "x"}`, `[1, 2, 3]`, `{"result":{"ok":true},"list":[{"a":1}]}`, `"just a string"`, `null`,
+			`{"name":"get_weather","arguments":"{\"city\":\"Paris\"}"}`, `{"name":"get_weather","arguments":null}`, `{"name":"get_weather","arguments":["Paris"]}`, `{"name":"get_weather"}`}[verifsim.Draw("nj", 10)]
 	case "one-call":
 		c.out = c17Call(f)
 	case "two-calls":
